@@ -126,7 +126,9 @@ func c09Setup(o *optCase, methods []string, bFirst bool) string {
 		a.WriteString(c09Lines("", o.Notes["A"]))
 		// list-valued notations have no meaning on an interface and are passed over there: three of a kind (a slice
 		// with spare capacity, should they ever be kept) must not connect the methods' own lists with each other
-		a.WriteString("// :skip ZzNone1\n// :skip ZzNone2\n// :skip ZzNone3\n")
+		// five skip lines leave room for three more in a slice grown by appending (capacity 8): exactly the number of
+		// skip lines each of the two methods has of its own
+		a.WriteString("// :skip ZzNone1\n// :skip ZzNone2\n// :skip ZzNone3\n// :skip ZzNone4\n// :skip ZzNone5\n")
 		a.WriteString("// :literal ZzNone1 1\n// :literal ZzNone2 2\n// :literal ZzNone3 3\n// :map Plain ZzNone1\n// :map Plain ZzNone2\n// :map Plain ZzNone3\n")
 		a.WriteString("type Convergen interface {\n")
 		for _, m := range []string{"A1", "A2"} {
